@@ -65,6 +65,9 @@ def digest(pkg):
     return hashlib.sha256(pkg.SerializeToString(deterministic=True)).hexdigest()[:24]
 
 
+LAST = {"full": "", "lines": 0}        # the complete message of the last exception do_call saw (digest, number of lines)
+
+
 def do_call(h, kind, tops):
     """returns (raised, digest-or-'', exception signature)"""
     try:
@@ -79,4 +82,6 @@ def do_call(h, kind, tops):
         return False, digest(pkg), ""
     except Exception as ex:
         msg = str(ex).strip().splitlines()[-1] if str(ex).strip() else ""
+        LAST["full"] = hashlib.sha256((type(ex).__name__ + ": " + str(ex)).encode()).hexdigest()[:16]
+        LAST["lines"] = len(str(ex).strip().splitlines())
         return True, "", f"{type(ex).__name__}: {msg[:160]}"
